@@ -6,6 +6,8 @@
 package main
 
 import (
+	"crypto/sha256"
+	"encoding/hex"
 	"encoding/json"
 	"fmt"
 	"math"
@@ -255,7 +257,7 @@ func dupKeys(j *J) *J {
 	return out
 }
 
-const nAliasKinds = 22
+const nAliasKinds = 23
 
 // alias envelopes: other spellings a client may use; the decoders are expected to read the same
 // request from most of them (the model decides; all envelopes the model decodes to the same request
@@ -267,7 +269,7 @@ func aliasSub(t *table, o *opReq, kind int, r *rng.R, id func() string) *submiss
 		t.tree(txt, j)
 		return &submission{Transport: "post-json", Role: "alias", Label: label, HTTP: &httpEnv{Method: "POST", ContentType: ct, Params: params, Body: txt}}
 	}
-	if o.Sub && kind < 14 {
+	if o.Sub && (kind < 14 || kind == 22) {
 		return nil
 	}
 	switch kind {
@@ -371,6 +373,23 @@ func aliasSub(t *table, o *opReq, kind int, r *rng.R, id func() string) *submiss
 		}
 		s := wsSub(t, rng.Pick(r, []string{"gws", "tws"}), "other", "dup-null", id(), j, styleCompact, "itp")
 		return &s
+	case 22:
+		// persisted-query lookup of a hash that was never registered: with a storage configured the
+		// answer is PersistedQueryNotFound, without one the empty query is executed; either way an
+		// ordinary 200 application/json response
+		sum := sha256.Sum256([]byte(o.Query + "#never-registered"))
+		ext := jobj(kv{"persistedQuery", jobj(kv{"version", jnum(rng.Pick(r, []string{"1", "1.0", "1e0"}))}, kv{"sha256Hash", jstr(hex.EncodeToString(sum[:]))})})
+		if r.Bool() {
+			j := jobj(kv{"extensions", ext})
+			if o.Vars != nil {
+				j.O = append(j.O, kv{"variables", o.Vars})
+			}
+			s := postJSON("pq-not-found", j, styleCompact, "application/json", nil)
+			s.Role = "other"
+			return s
+		}
+		t.tree(ext.text(styleCompact), ext)
+		return &submission{Transport: "get", Role: "other", Label: "pq-not-found", HTTP: &httpEnv{Method: "GET", Params: [][2]string{{"extensions", ext.text(styleCompact)}}}}
 	case 21:
 		// variables given twice: both decoders merge into one map
 		j := jobj(kv{"variables", jobj(kv{"i", jnum("41")}, kv{"zz", jnum("1")})})
@@ -630,7 +649,9 @@ func (w *world) run(cfg config, feat bool, o *opReq, t *table, subs []submission
 				decs[k] = w.dec.decodeWS(*s.WS, w.caseNo)
 				// a subscription is answered asynchronously; a message the decoder does not hand to
 				// HandleStart is not answered at all, so there is nothing to wait for
-				async := o.Sub && len(decs[k].List) > 0 && decs[k].List[0].Sym == "start"
+				// (an alias envelope may select another operation of the document than the case's: any
+				// started document that mentions a subscription is awaited by its own complete)
+				async := (o.Sub || strings.Contains(s.WS.Raw, "subscription")) && len(decs[k].List) > 0 && decs[k].List[0].Sym == "start"
 				for _, v := range variants {
 					obs[k] = append(obs[k], v.serveWS(*s.WS, feat, async, w.caseNo).sexp())
 				}
@@ -659,11 +680,20 @@ func (w *world) run(cfg config, feat bool, o *opReq, t *table, subs []submission
 	}
 	return sexp.T("case",
 		sexp.T("cfg", sexp.Sym("c"+cfg.String()), sexp.Bool(feat)),
+		sexp.T("inits", initNodes(initsFor(cfg, feat))...),
 		sexp.T("op", sexp.Str(o.Query), optVars(o.Vars), sexp.Str(o.OpName), sexp.Bool(o.Sub)),
 		sexp.T("classes", cl...),
 		sexp.T("json", t.sexp()),
 		sexp.T("nums", numsOf(subs)...),
 		sexp.T("subs", items...))
+}
+
+func initNodes(plans []string) []sexp.Node {
+	var out []sexp.Node
+	for _, p := range plans {
+		out = append(out, sexp.Str(p))
+	}
+	return out
 }
 
 func allConfigs() []config {
@@ -690,6 +720,7 @@ func main() {
 			return func() string { n++; return fmt.Sprintf("c%d-%d%s", idx, n, special[(idx+n)%len(special)]) }
 		}
 		cfgs := allConfigs()
+		deepLimit = h.Thorough()
 
 		// 1. exhaustive: every configuration x feature state x base operation, all canonical envelopes
 		for _, cfg := range cfgs {
